@@ -38,6 +38,7 @@ type UploadPlan struct {
 	Action        string  `json:"action"` // "answer" | "drop" | "stall"
 	Status        int     `json:"status,omitempty"`
 	DAVError      bool    `json:"dav_error,omitempty"`
+	RespBody      string  `json:"resp_body,omitempty"` // script, 2xx answers: "" none | "stall" (3 of 10 announced bytes, then nothing) | "slow" (the rest after 10 fake seconds) | "reset" (an error after 3 bytes)
 	AnswerDelayNS int64   `json:"answer_delay_ns"`
 	ClosePolicy   string  `json:"close_policy"` // "before-return" | "async"
 	CloseDelayNS  int64   `json:"close_delay_ns,omitempty"`
@@ -263,8 +264,84 @@ func (tr *upTransport) RoundTrip(req *http.Request) (resp *http.Response, err er
 			rb = []byte("scripted refusal\n")
 		}
 	}
+	if p.Status/100 == 2 && p.RespBody != "" && p.Status != 204 {
+		// a success whose (useless) body does not arrive in one piece: the
+		// answer is there, the upload is over, nothing in the body matters
+		h.Set("Content-Type", "text/plain")
+		return &http.Response{Status: fmt.Sprintf("%d %s", p.Status, http.StatusText(p.Status)), StatusCode: p.Status, Proto: "HTTP/1.1", ProtoMajor: 1, ProtoMinor: 1,
+			Header: h, Body: &lazyBody{ctx: ctx, mode: p.RespBody, data: []byte("0123456789"), log: tr.log}, ContentLength: 10, Request: req}, nil
+	}
 	return &http.Response{Status: fmt.Sprintf("%d %s", p.Status, http.StatusText(p.Status)), StatusCode: p.Status, Proto: "HTTP/1.1", ProtoMajor: 1, ProtoMinor: 1,
 		Header: h, Body: io.NopCloser(bytes.NewReader(rb)), ContentLength: int64(len(rb)), Request: req}, nil
+}
+
+// lazyBody is the body of an answer that does not arrive in one piece: three
+// bytes, then - depending on the mode - nothing more ("stall": only closing it
+// or cancelling the request ends a Read), the rest after ten fake seconds
+// ("slow"), or a connection reset ("reset").
+type lazyBody struct {
+	ctx    context.Context
+	mode   string
+	data   []byte
+	off    int
+	closed chan struct{}
+	once   sync.Once
+	log    *roleLog
+}
+
+func (b *lazyBody) init() {
+	b.once.Do(func() { b.closed = make(chan struct{}) })
+}
+
+func (b *lazyBody) Read(p []byte) (int, error) {
+	b.init()
+	if len(p) == 0 {
+		return 0, nil
+	}
+	if b.off < 3 {
+		n := copy(p, b.data[b.off:3])
+		b.off += n
+		return n, nil
+	}
+	switch b.mode {
+	case "reset":
+		return 0, errReset
+	case "slow":
+		if b.off == 3 {
+			select {
+			case <-time.After(10 * time.Second):
+			case <-b.ctx.Done():
+				return 0, b.ctx.Err()
+			case <-b.closed:
+				return 0, errors.New("http: read on closed response body")
+			}
+		}
+		if b.off >= len(b.data) {
+			return 0, io.EOF
+		}
+		n := copy(p, b.data[b.off:])
+		b.off += n
+		return n, nil
+	}
+	if b.log != nil {
+		b.log.Addf(1, "  the client waits for the rest of the answer's body")
+	}
+	select {
+	case <-b.ctx.Done():
+		return 0, b.ctx.Err()
+	case <-b.closed:
+		return 0, errors.New("http: read on closed response body")
+	}
+}
+
+func (b *lazyBody) Close() error {
+	b.init()
+	select {
+	case <-b.closed:
+	default:
+		close(b.closed)
+	}
+	return nil
 }
 
 // ExecuteUpload runs one upload plan inside a bubble and judges it.
@@ -274,6 +351,9 @@ func ExecuteUpload(t *testing.T, plan *Plan, opts Opts) *RunResult {
 	res.Stats.Steps = 1
 	p := plan.Upload
 	class := fmt.Sprintf("upload mode=%s server=%s action=%s status=%d read=%s close=%s cancel=%s", map[bool]string{true: "N", false: "D"}[p.Mode == "N"], p.Server, p.Action, p.Status/100*100, readClass(p), p.ClosePolicy, cancelClass(p))
+	if p.RespBody != "" && p.Mode != "N" {
+		class += " answer-body=" + p.RespBody
+	}
 	add := func(clause, msg string) {
 		v := Violation{Prop: "C18", Clause: clause, Class: class, Msg: msg}
 		if opts.Own == "" || opts.Own == "C18" {
@@ -598,6 +678,9 @@ func GenC18Upload(seed uint64, tier string) *Plan {
 		p.Status = rt.Pick(r, []int{200, 201, 204, 207, 299, 301, 304, 400, 403, 404, 405, 409, 412, 413, 423, 500, 502, 503, 507})
 		p.DAVError = r.Chance(0.3)
 		p.AnswerDelayNS = rt.Pick(r, []int64{0, 1, 1e6, 1e9, 60e9})
+		if p.Status/100 == 2 && p.Action == "answer" && r.Chance(0.3) {
+			p.RespBody = rt.Pick(r, []string{"stall", "stall", "slow", "reset"})
+		}
 	}
 	switch r.Weighted([]int{5, 1, 3, 1}) {
 	case 0:
